@@ -28,6 +28,8 @@ def do_import(src):
 def check(d):
     d = os.path.abspath(d)
     meta = json.load(open(os.path.join(d, "meta.json")))
+    if meta.get("superseded"):
+        print(os.path.basename(d), "SUPERSEDED (skipped)"); return
     wt = os.environ.get("SEED_WT", "/tmp/wt_ref")
     sh(f"git -C /repo worktree remove --force {wt}")
     rc, out = sh(f"git -C /repo worktree add --detach {wt} HEAD"); assert rc == 0, out
@@ -40,6 +42,10 @@ def check(d):
         meta["applies"] = True
         rc, out = sh("go build ./...", cwd=wt); meta["builds"] = rc == 0
         ids = [c["property_id"] for c in json.load(open(V + "/MANIFEST.json"))["checks"]]
+        if os.environ.get("REF_PROPS"):  # re-check only the checks that changed; the other verdicts of the last full run stand
+            only = os.environ["REF_PROPS"].split()
+            ids = [i for i in ids if i in only]
+            res = {k: v for k, v in meta.get("false_alarms", {}).items() if k not in only}
         vdir = "/tmp/verif_ref_" + os.path.basename(wt); os.makedirs(vdir, exist_ok=True)
         shutil.copy(V + "/known_findings.json", vdir)
         for pid in ids:
